@@ -411,6 +411,9 @@ def replay(pid, path, blocks_for):
             blk.fn(ctx, ctx.case)
         finally:
             signal.setitimer(signal.ITIMER_PROF, 0)
+            if _env().ABORT[0]:
+                _env().ABORT[0] = False
+                raise _env().CaseTimeout()
     except _case_timeout():
         signal.setitimer(signal.ITIMER_PROF, 0)
         _env().ABORT[0] = False
